@@ -553,10 +553,16 @@ pub struct Known {
 impl Known {
     pub fn load(verif: &Path) -> Known {
         let mut findings = Vec::new();
-        if let Ok(t) = std::fs::read_to_string(verif.join("known-findings.jsonl")) {
+        if let Ok(t) = std::fs::read_to_string(verif.join("known-findings.txt")) {
             for l in t.lines() {
-                if let Ok(v) = serde_json::from_str::<Value>(l) {
-                    if v.get("kind").and_then(|k| k.as_str()) == Some("finding") {
+                // finding: property=<id> {json}
+                if let Some(rest) = l.strip_prefix("finding: property=") {
+                    let mut it = rest.splitn(2, ' ');
+                    let prop = it.next().unwrap_or("").to_string();
+                    if let Some(mut v) = it.next().and_then(|j| serde_json::from_str::<Value>(j).ok()) {
+                        if let Some(o) = v.as_object_mut() {
+                            o.insert("property".into(), json!(prop));
+                        }
                         findings.push(v);
                     }
                 }
